@@ -158,6 +158,10 @@ var c03Placements = []c03Placement{
 	{"after-inplace-template-tail", func(c string) string {
 		return `<div><b>[pre]</b><template v-html="hv"></template>` + c + `</div><b>[post]</b>`
 	}, 1},
+	// ... the parent being itself the selected member of a chain (its children are linked by other code)
+	{"after-inplace-template-in-chain-member", func(c string) string {
+		return `<b>[pre]</b><section v-if="yes"><template v-html="hv"></template>` + c + `</section><i v-else>[never]</i><b>[post]</b>`
+	}, 1},
 	{"after-inplace-template-in-vfor", func(c string) string {
 		return `<div v-for="q in two"><b>[pre]</b><section><template v-html="hv"></template>` + c + `</section><b>[post]</b></div>`
 	}, 2},
